@@ -30,6 +30,7 @@ def parseCmd (ws : List String) : Option Cmd :=
   | ["waitp", p] => some (.waitProc (N p))
   | ["usched", v, d, pr] => some (.schedUser (N v) (I d) (I pr))
   | ["ucancel", v] => some (.cancelUser (N v))
+  | ["upcancel"] => some .cancelUserAll
   | ["waite", v] => some (.waitEvent (N v))
   | ["acq", r] => some (.acquire (N r))
   | ["pre", r] => some (.preempt (N r))
